@@ -219,4 +219,44 @@ theorem mpzInit_owf (s : St) (x y : Nat) (h : OWF (s.h y)) : OWF ((mpzInit s x).
   · rw [mpzInit_other s x e]; exact h
 theorem mpzInit_owf_self (s : St) (x : Nat) : OWF ((mpzInit s x).h x) := by rw [mpzInit_same]; exact fresh_owf
 
+/-! ## signs -/
+
+theorem valOf_ne_zero (s : St) (x : Nat) (h : OWF (s.h x)) (hne : (s.h x).size ≠ 0) : valOf s x ≠ 0 := by
+  have := valOf_ge s x h hne
+  have hp : 0 < B ^ ((s.h x).size.natAbs - 1) := Nat.pos_of_ne_zero (by have := B_pos; positivity)
+  have h1 : 1 ≤ (valOf s x).natAbs := Nat.le_trans hp this
+  intro e; rw [e] at h1; simp at h1
+
+theorem size_neg_iff (s : St) (x : Nat) (h : OWF (s.h x)) : (s.h x).size < 0 ↔ valOf s x < 0 := by
+  constructor
+  · intro hn
+    have hne : (s.h x).size ≠ 0 := by omega
+    have h0 := valOf_ne_zero s x h hne
+    have : valOf s x = -(val (view (s.h x)).d : Int) := by
+      unfold valOf Mpz.toInt; rw [if_pos (by simpa [view] using hn)]
+    omega
+  · intro hv
+    by_contra hn
+    have : valOf s x = (val (view (s.h x)).d : Int) := by
+      unfold valOf Mpz.toInt; rw [if_neg (by simpa [view] using hn)]
+    omega
+
+/-- `SIZ (x) = -SIZ (x)` (div.c:67-68): still well formed, value negated, nothing else touched -/
+theorem setSize_neg (s : St) (x : Nat) (h : OWF (s.h x)) :
+    OWF ((s.setSize x (-(s.h x).size)).h x) ∧ valOf (s.setSize x (-(s.h x).size)) x = -valOf s x := by
+  obtain ⟨hb, h1, h2, h3, h4, h5⟩ := h
+  have hv : view ((s.setSize x (-(s.h x).size)).h x) = ⟨(view (s.h x)).alloc, -(s.h x).size, (view (s.h x)).d⟩ := by
+    simp [view, St.setSize, upd]
+  refine ⟨⟨by simpa using hb, ?_⟩, ?_⟩
+  · rw [hv]
+    exact ⟨h1, by simpa [view] using h2, by simpa [view] using h3, h4, h5⟩
+  · unfold valOf; rw [hv]; unfold Mpz.toInt
+    simp only [view] at h3 ⊢
+    have hz : (s.h x).size = 0 → val (List.take (s.h x).size.natAbs (s.h x).buf.limbs) = 0 := by
+      intro h0
+      have : (List.take (s.h x).size.natAbs (s.h x).buf.limbs) = [] := by
+        apply List.eq_nil_of_length_eq_zero; rw [h3, h0]; rfl
+      rw [this]; simp [val]
+    split_ifs <;> omega
+
 end Mpir.AllocSafe6
